@@ -143,6 +143,16 @@ Definition catalog_centroid (b : zbox) (a : img Z) : Q * Q :=
   let c := cropz b a in
   let '(y0, y1, x0, x1) := b in act_xy y0 x0 (centroid_x c, centroid_y c).
 
+(* ---------------- SourceCatalog.background_centroid ---------------- *)
+(* scipy.ndimage.map_coordinates(background, (ycen, xcen), order=1) at the position
+   (y + fy/s, x + fx/s), 0 <= fy, fx <= s, times s^2 (bilinear interpolation of the four neighbours);
+   REPAIRED code (fixes/C03-1): coordinates in (row, column) = (y, x) order *)
+Definition bilinear (a : img Z) (y x : nat) (fy fx s : Z) : Z :=
+  (s - fy) * (s - fx) * get 0 a y x + (s - fy) * fx * get 0 a y (S x) +
+  fy * (s - fx) * get 0 a (S y) x + fy * fx * get 0 a (S y) (S x).
+(* the code before the repair passed (xcen, ycen): the value at the transposed position *)
+Definition bilinear_head (a : img Z) (y x : nat) (fy fx s : Z) : Z := bilinear a x y fx fy s.
+
 (* ---------------- 2-D foreground map of detect_sources (C04) ---------------- *)
 Definition fg_px (d t : option Z) (m : bool) : bool :=
   match d, t with Some d, Some t => (t <? d) && negb m | _, _ => false end.
@@ -175,7 +185,9 @@ Inductive case :=
   (* photutils.utils._moments._moments(a, 3) (row-major 4x4) *)
 | CMoments (a : img Z) (m : list (list Z))
   (* SegmentationImage(s).bbox of label l (iymin, iymax, ixmin, ixmax) *)
-| CSegBBox (l : Z) (s : img Z) (r : zbox).
+| CSegBBox (l : Z) (s : img Z) (r : zbox)
+  (* s^2 * SourceCatalog.background_centroid for a centroid at (y + fy/s, x + fx/s) *)
+| CBilinear (a : img Z) (y x fy fx s : Z) (r : Z).
 
 Definition moments3 (a : img Z) : list (list Z) :=
   map (fun i => map (fun j => moment i j a) (seq 0 4)) (seq 0 4).
@@ -191,11 +203,12 @@ Definition check_case (c : case) : bool :=
   | CTranspose nx a aT => zimg_eqb (transpose 0 (Z.to_nat nx) a) aT
   | CMoments a m => zimg_eqb (moments3 a) m
   | CSegBBox l s r => opt_eqb zbox_eqb (seg_bbox l s) (Some r)
+  | CBilinear a y x fy fx s r => bilinear a (Z.to_nat y) (Z.to_nat x) fy fx s =? r
   end.
 
 Inductive out :=
 | OBox (b : zbox) | OSlices (r : option ((zslc * zslc) * (zslc * zslc))) | OImg (a : img Z)
-| OImgs (a b c : img Z) | OOptBox (b : option zbox).
+| OImgs (a b c : img Z) | OOptBox (b : option zbox) | OZ (v : Z).
 Definition model_out (c : case) : out :=
   match c with
   | CFromFloat xmin xmax ymin ymax _ => OBox (from_float xmin xmax ymin ymax)
@@ -206,4 +219,5 @@ Definition model_out (c : case) : out :=
   | CTranspose nx a _ => OImg (transpose 0 (Z.to_nat nx) a)
   | CMoments a _ => OImg (moments3 a)
   | CSegBBox l s _ => OOptBox (seg_bbox l s)
+  | CBilinear a y x fy fx s _ => OZ (bilinear a (Z.to_nat y) (Z.to_nat x) fy fx s)
   end.
